@@ -22,7 +22,30 @@ import (
 	"verif/harness/internal/vk"
 )
 
-type tA struct{ ID int }
+// tA carries optional fields that are present for some ids only: an event decoded afresh does not
+// inherit anything from the one decoded before it.
+type tA struct {
+	ID   int
+	Opt  string         `json:"opt,omitempty"`
+	Tags map[string]int `json:"tags,omitempty"`
+}
+
+func mkA(id int) tA {
+	e := tA{ID: id}
+	if id%2 == 0 {
+		e.Opt = fmt.Sprintf("o%d", id)
+	}
+	if id%3 == 0 {
+		e.Tags = map[string]int{fmt.Sprintf("t%d", id): id}
+	}
+	return e
+}
+
+func sameA(e tA) bool {
+	w := mkA(e.ID)
+	return e.Opt == w.Opt && len(e.Tags) == len(w.Tags) && (len(w.Tags) == 0 || e.Tags[fmt.Sprintf("t%d", e.ID)] == e.ID)
+}
+
 type tB struct{ ID int }
 type tC struct{ ID int }
 
@@ -63,23 +86,30 @@ type rec struct {
 	N     int    `json:"n,omitempty"`       // store operation index (save records)
 }
 
+type keptPtr struct {
+	e  *tBP
+	id int
+}
+
 type world struct {
-	hookMode  int // 0 none, 1 a before-hook that panics for some events, 2 one that publishes a further event first
-	subCancel map[int]context.CancelFunc
-	shapeB    int // 0 plain struct, 1 pointer event with pointer-receiver TypeNamer, 2 value TypeNamer
-	kind      string
-	under     *stores.Opened
-	subMem    *ebu.MemoryStore // separate subscription store, when used
-	faults    *stores.Faults
-	bus       *ebu.EventBus
-	epoch     int
-	log       []rec
-	nextID    int
-	subbed    map[int]bool
-	inSub     int // subscription id whose SubscribeWithReplay is running (-1 none)
-	opsSeen   int
-	foreign   map[int]bool
-	nestDepth int
+	badPayload string
+	kept       []keptPtr
+	hookMode   int // 0 none, 1 a before-hook that panics for some events, 2 one that publishes a further event first
+	subCancel  map[int]context.CancelFunc
+	shapeB     int // 0 plain struct, 1 pointer event with pointer-receiver TypeNamer, 2 value TypeNamer
+	kind       string
+	under      *stores.Opened
+	subMem     *ebu.MemoryStore // separate subscription store, when used
+	faults     *stores.Faults
+	bus        *ebu.EventBus
+	epoch      int
+	log        []rec
+	nextID     int
+	subbed     map[int]bool
+	inSub      int // subscription id whose SubscribeWithReplay is running (-1 none)
+	opsSeen    int
+	foreign    map[int]bool
+	nestDepth  int
 }
 
 func (w *world) newBus() {
@@ -159,7 +189,7 @@ func (w *world) publish(typ int, foreign bool) {
 		}()
 		switch typ {
 		case 0:
-			ebu.Publish(w.bus, tA{id})
+			ebu.Publish(w.bus, mkA(id))
 		case 1:
 			switch w.shapeB {
 			case 1:
@@ -177,7 +207,7 @@ func (w *world) publish(typ int, foreign bool) {
 	for _, op := range ops[before:] {
 		// this publish's own append carries its id (appends of publishes made from inside its hooks
 		// and handlers carry theirs)
-		if op.Kind == "append" && !op.Dead && strings.Contains(op.Arg, fmt.Sprintf(`{"ID":%d}`, id)) {
+		if op.Kind == "append" && !op.Dead && (strings.Contains(op.Arg, fmt.Sprintf(`{"ID":%d}`, id)) || strings.Contains(op.Arg, fmt.Sprintf(`{"ID":%d,`, id))) {
 			if !op.Err {
 				w.log = append(w.log, rec{K: "append", EID: id, T: typ, Off: op.Res, OK: true, Epoch: w.epoch, Fgn: foreign})
 			}
@@ -219,11 +249,21 @@ func (w *world) subscribe(s int) error {
 	var err error
 	switch subType[s] {
 	case 0:
-		err = ebu.SubscribeWithReplay(ctx, w.bus, id, func(e tA) { w.deliver(s, e.ID, 0); w.maybeNested(s, e.ID, 0) })
+		err = ebu.SubscribeWithReplay(ctx, w.bus, id, func(e tA) {
+			if !sameA(e) && w.badPayload == "" {
+				w.badPayload = fmt.Sprintf("sub-%d received event %d as %+v, it was published as %+v", s, e.ID, e, mkA(e.ID))
+			}
+			w.deliver(s, e.ID, 0)
+			w.maybeNested(s, e.ID, 0)
+		})
 	case 1:
 		switch w.shapeB {
 		case 1:
-			err = ebu.SubscribeWithReplay(ctx, w.bus, id, func(e *tBP) { w.deliver(s, e.ID, 1); w.maybeNested(s, e.ID, 1) })
+			err = ebu.SubscribeWithReplay(ctx, w.bus, id, func(e *tBP) {
+				w.kept = append(w.kept, keptPtr{e, e.ID}) // a consumer that keeps the events it was given
+				w.deliver(s, e.ID, 1)
+				w.maybeNested(s, e.ID, 1)
+			})
 		case 2:
 			err = ebu.SubscribeWithReplay(ctx, w.bus, id, func(e tBN) { w.deliver(s, e.ID, 1); w.maybeNested(s, e.ID, 1) })
 		default:
@@ -234,10 +274,11 @@ func (w *world) subscribe(s int) error {
 }
 
 type result struct {
-	log   []rec
-	ops   []stores.OpRec
-	nOps  int
-	subOp map[int]bool // op indices that happened inside a SubscribeWithReplay call
+	payload string // a delivered event whose content is not what was published
+	log     []rec
+	ops     []stores.OpRec
+	nOps    int
+	subOp   map[int]bool // op indices that happened inside a SubscribeWithReplay call
 }
 
 func openWorld(kind, scratch string) (*world, error) {
@@ -334,6 +375,12 @@ func execute(kind, scratch string, steps []step, f faultSpec) (*result, error) {
 		}
 	}
 	res.log = w.log
+	res.payload = w.badPayload
+	for _, k := range w.kept {
+		if k.e.ID != k.id && res.payload == "" {
+			res.payload = fmt.Sprintf("an event delivered as #%d (kept by the handler) later reads as #%d: deliveries share one value", k.id, k.e.ID)
+		}
+	}
 	res.ops = w.faults.Snapshot()
 	byN := map[int]stores.OpRec{}
 	for _, op := range res.ops {
@@ -352,6 +399,9 @@ func execute(kind, scratch string, steps []step, f faultSpec) (*result, error) {
 
 // check evaluates the clauses of the property on one executed history.
 func check(r *result, f faultSpec, durable bool) (sig, desc string) {
+	if r.payload != "" {
+		return "resume:delivered-event-differs-from-published", r.payload
+	}
 	// position of every appended event, in log order; offsets -> position
 	pos := map[string]int{"": 0}
 	evPos := map[int]int{}
